@@ -1,46 +1,45 @@
 /-
-Helper lemmas for C04: the invariant of the slashing-protection model and its preservation by every step.
+Helper lemmas for C04: the invariant of the slashing-protection model and its preservation by every step of the
+CURRENT semantics (`step`: the bump holds the wallet write lock; lock-taking requests issued meanwhile are delayed).
 -/
 import Ssv.Model.Slashing
 
 namespace Ssv.Slashing
 
-/-! ### hypotheses on histories, as per-step guards evaluated in the state in which the op executes -/
+/-! ### hypothesis on histories, as a per-step guard evaluated in the state in which the op executes -/
+
+/-- every signature RELEASED by the step from `s` to `s'` (new entries of the ghost logs) is within the property's
+    quantifier at its release: attestation `source < target ≤ epoch(clock)`, block `slot ≤ clock` -/
+def NewOk (cfg : Cfg) (s s' : State) : Prop :=
+  (∀ a ∈ s'.atts, a ∈ s.atts ∨ (a.1 < a.2 ∧ a.2 ≤ epochOf cfg s.clock)) ∧
+  (∀ b ∈ s'.blocks, b ∈ s.blocks ∨ b ≤ s.clock)
 
 /-- the property's quantifier ("targets and block slots not beyond the clock at signing time"), asked only of
-    requests that are actually SIGNED; plus `source < target` for attestations (the attester value check of
-    ssv-spec enforces it before any sign request; the proof needs it across remove / re-add). -/
-def SignedOk (cfg : Cfg) (s : State) (op : Op) : Prop :=
-  (step cfg s op).2 = .signed →
-    match op with
-    | .signAtt x y => x < y ∧ y ≤ epochOf cfg s.clock
-    | .signBlock slot => slot ≤ s.clock
-    | _ => True
-
-/-- a split `BumpSlashingProtection` performs its writes while the clock still shows the epoch (attestation
-    record) / slot (proposal record) it read at its beginning -/
-def Fresh (cfg : Cfg) (s : State) (op : Op) : Prop :=
-  match op, s.pend with
-  | .bumpWrite, some (.attWrite c _) => epochOf cfg s.clock ≤ epochOf cfg c
-  | .bumpWrite, some (.propWrite c _) => s.clock ≤ c
-  | _, _ => True
+    requests that are actually SIGNED, at the moment they are signed (a request delayed behind a bump is signed when
+    the bump finishes); plus `source < target` for attestations (the attester value check of ssv-spec enforces it
+    before any sign request; the proof needs it across remove / re-add). -/
+def SignedOk (cfg : Cfg) (s : State) (op : Op) : Prop := NewOk cfg s (step cfg s op).1
 
 /-- `P` holds at every step of the run of `ops` from `s` -/
 def Along (cfg : Cfg) (P : State → Op → Prop) (s : State) : List Op → Prop
   | [] => True
   | op :: ops => P s op ∧ Along cfg P (step cfg s op).1 ops
 
-/-- no split bump in the history (the op alphabet of the property text: reactivation is one op) -/
-def Op.atomic : Op → Bool
-  | .bumpBegin | .bumpRead | .bumpWrite => false
-  | _ => true
-
 /-! ### the invariant -/
 
-def PendOk (cfg : Cfg) : Option BumpPc → Prop
-  | some (.attWrite c w) => w = minimalAtt (epochOf cfg c)
-  | some (.propWrite c w) => w = minimalProp c
+def BumpPc.c : BumpPc → Nat
+  | .attRead c | .attWrite c _ | .propRead c | .propWrite c _ => c
+
+def PcOk (cfg : Cfg) : BumpPc → Prop
+  | .attWrite c w => w = minimalAtt (epochOf cfg c)
+  | .propWrite c w => w = minimalProp c
   | _ => True
+
+/-- an in-flight bump: its decided write is the minimal record of its clock reading, and — because nothing is signed
+    while it holds the lock — every released signature is within that clock reading -/
+def PendOk (cfg : Cfg) (atts : List Att) (blocks : List Nat) : Option BumpPc → Prop
+  | none => True
+  | some pc => PcOk cfg pc ∧ (∀ a ∈ atts, a.2 ≤ epochOf cfg pc.c) ∧ (∀ b ∈ blocks, b ≤ pc.c)
 
 structure Inv (cfg : Cfg) (s : State) : Prop where
   attWF : ∀ a ∈ s.atts, a.1 < a.2 ∧ a.2 ≤ epochOf cfg s.clock
@@ -49,10 +48,22 @@ structure Inv (cfg : Cfg) (s : State) : Prop where
   blkDom : ∀ hp, s.d.prop = some hp → ∀ b ∈ s.blocks, b ≤ hp
   attSafe : s.atts.Pairwise (fun a b => ¬ Slashable a b)
   blkSafe : s.blocks.Pairwise (fun a b => a ≠ b)
-  pendOk : PendOk cfg s.pend
+  pendOk : PendOk cfg s.atts s.blocks s.pend
 
 theorem inv_init (cfg : Cfg) (c : Nat) : Inv cfg (init c) := by
   constructor <;> simp [init, PendOk]
+
+/-- the invariant only reads clock, records, in-flight bump and the two logs -/
+theorem inv_of_fields {cfg : Cfg} {s s' : State} (h : Inv cfg s) (h1 : s'.clock = s.clock) (h2 : s'.d = s.d)
+    (h3 : s'.pend = s.pend) (h4 : s'.atts = s.atts) (h5 : s'.blocks = s.blocks) : Inv cfg s' := by
+  constructor
+  · rw [h4, h1]; exact h.attWF
+  · rw [h5, h1]; exact h.blkWF
+  · rw [h2, h4]; exact h.attDom
+  · rw [h2, h5]; exact h.blkDom
+  · rw [h4]; exact h.attSafe
+  · rw [h5]; exact h.blkSafe
+  · rw [h3, h4, h5]; exact h.pendOk
 
 theorem epochOf_mono (cfg : Cfg) {a b : Nat} (h : a ≤ b) : epochOf cfg a ≤ epochOf cfg b :=
   Nat.div_le_div_right h
@@ -109,63 +120,69 @@ theorem bumpAtomic_spec (cfg : Cfg) (c : Nat) (d : Durable) (fa fp : Bool) :
       · by_cases hz : minimalProp c = 0 <;> simp [hfp, hz]
     · simp
 
-/-- any change of the durable records that deletes a record, keeps it, or installs the minimal protection of a
-    clock value whose epoch / slot is not behind the current clock, keeps the invariant -/
+/-- any change of the durable records that deletes a record, keeps it, or installs a record that dominates every
+    released signature, keeps the invariant -/
 theorem inv_durable {cfg : Cfg} {s : State} (h : Inv cfg s) (d' : Durable) (pend' : Option BumpPc)
-    (ha : d'.att = s.d.att ∨ d'.att = none ∨
-      ∃ c, epochOf cfg s.clock ≤ epochOf cfg c ∧ d'.att = some (minimalAtt (epochOf cfg c)))
-    (hp : d'.prop = s.d.prop ∨ d'.prop = none ∨ ∃ c, s.clock ≤ c ∧ d'.prop = some (minimalProp c))
-    (hpend : PendOk cfg pend') :
+    (ha : d'.att = s.d.att ∨ d'.att = none ∨ ∃ w, d'.att = some w ∧ ∀ a ∈ s.atts, a.1 ≤ w.1 ∧ a.2 ≤ w.2)
+    (hp : d'.prop = s.d.prop ∨ d'.prop = none ∨ ∃ w, d'.prop = some w ∧ ∀ b ∈ s.blocks, b ≤ w)
+    (hpend : PendOk cfg s.atts s.blocks pend') :
     Inv cfg { s with d := d', pend := pend' } := by
   refine ⟨h.attWF, h.blkWF, ?_, ?_, h.attSafe, h.blkSafe, hpend⟩
   · intro hs ht hd a hmem
-    rcases ha with ha | ha | ⟨c, hc, ha⟩
+    rcases ha with ha | ha | ⟨w, ha, hw⟩
     · exact h.attDom hs ht (by simpa [ha] using hd) a hmem
     · simp [ha] at hd
     · simp only [ha, Option.some.injEq] at hd
-      have := minimalAtt_dom (h.attWF a hmem).1 (h.attWF a hmem).2 hc
+      have := hw a hmem
       rw [hd] at this
       exact this
   · intro hp' hd b hmem
-    rcases hp with hp | hp | ⟨c, hc, hp⟩
+    rcases hp with hp | hp | ⟨w, hp, hw⟩
     · exact h.blkDom hp' (by simpa [hp] using hd) b hmem
     · simp [hp] at hd
     · simp only [hp, Option.some.injEq] at hd
-      have := minimalProp_dom (h.blkWF b hmem) hc
+      have := hw b hmem
       omega
 
-theorem inv_pend {cfg : Cfg} {s : State} (h : Inv cfg s) (pend' : Option BumpPc) (hpend : PendOk cfg pend') :
-    Inv cfg { s with pend := pend' } :=
+theorem inv_pend {cfg : Cfg} {s : State} (h : Inv cfg s) (pend' : Option BumpPc)
+    (hpend : PendOk cfg s.atts s.blocks pend') : Inv cfg { s with pend := pend' } :=
   inv_durable h s.d pend' (Or.inl rfl) (Or.inl rfl) hpend
 
+/-- the minimal record of the CURRENT clock dominates everything released -/
+theorem dom_clock_att {cfg : Cfg} {s : State} (h : Inv cfg s) :
+    ∀ a ∈ s.atts, a.1 ≤ (minimalAtt (epochOf cfg s.clock)).1 ∧ a.2 ≤ (minimalAtt (epochOf cfg s.clock)).2 :=
+  fun a ha => minimalAtt_dom (h.attWF a ha).1 (h.attWF a ha).2 (Nat.le_refl _)
+
+theorem dom_clock_prop {cfg : Cfg} {s : State} (h : Inv cfg s) : ∀ b ∈ s.blocks, b ≤ minimalProp s.clock :=
+  fun b hb => minimalProp_dom (h.blkWF b hb) (Nat.le_refl _)
+
 /-! ### preservation, op by op -/
+
+theorem inv_bumpAtomic {cfg : Cfg} {s : State} (h : Inv cfg s) (fa fp : Bool) (acc : Bool) :
+    Inv cfg { s with d := { (bumpAtomic cfg s.clock s.d fa fp).1 with account := acc } } := by
+  obtain ⟨h1, h2, _⟩ := bumpAtomic_spec cfg s.clock s.d fa fp
+  exact inv_durable h { (bumpAtomic cfg s.clock s.d fa fp).1 with account := acc } s.pend
+    (by rcases h1 with h1 | h1
+        · exact Or.inl h1
+        · exact Or.inr (Or.inr ⟨_, h1, dom_clock_att h⟩))
+    (by rcases h2 with h2 | h2
+        · exact Or.inl h2
+        · exact Or.inr (Or.inr ⟨_, h2, dom_clock_prop h⟩))
+    h.pendOk
 
 theorem inv_add {cfg : Cfg} {s : State} (h : Inv cfg s) (fa fp : Bool) : Inv cfg (stepAdd cfg s fa fp).1 := by
   unfold stepAdd
   split
   · exact h
-  · obtain ⟨h1, h2, _⟩ := bumpAtomic_spec cfg s.clock s.d fa fp
-    have key : ∀ acc : Bool, Inv cfg { s with d := { (bumpAtomic cfg s.clock s.d fa fp).1 with account := acc } } := by
-      intro acc
-      have := inv_durable h { (bumpAtomic cfg s.clock s.d fa fp).1 with account := acc } s.pend
-        (by rcases h1 with h1 | h1
-            · exact Or.inl h1
-            · exact Or.inr (Or.inr ⟨s.clock, Nat.le_refl _, h1⟩))
-        (by rcases h2 with h2 | h2
-            · exact Or.inl h2
-            · exact Or.inr (Or.inr ⟨s.clock, Nat.le_refl _, h2⟩))
-        h.pendOk
-      exact this
-    split
+  · split
     · rename_i d' heq
       have : d' = (bumpAtomic cfg s.clock s.d fa fp).1 := by rw [heq]
       subst this
-      exact key true
+      exact inv_bumpAtomic h fa fp true
     · rename_i d' o _ heq
       have : d' = (bumpAtomic cfg s.clock s.d fa fp).1 := by rw [heq]
       subst this
-      have := key (bumpAtomic cfg s.clock s.d fa fp).1.account
-      exact this
+      exact inv_bumpAtomic h fa fp (bumpAtomic cfg s.clock s.d fa fp).1.account
 
 theorem inv_remove {cfg : Cfg} {s : State} (h : Inv cfg s) (f : Option Nat) : Inv cfg (stepRemove s f).1 := by
   unfold stepRemove
@@ -178,49 +195,66 @@ theorem inv_remove {cfg : Cfg} {s : State} (h : Inv cfg s) (f : Option Nat) : In
 
 theorem inv_bump {cfg : Cfg} {s : State} (h : Inv cfg s) : Inv cfg (stepBump cfg s).1 := by
   unfold stepBump
-  obtain ⟨h1, h2, _⟩ := bumpAtomic_spec cfg s.clock s.d false false
-  exact inv_durable h (bumpAtomic cfg s.clock s.d false false).1 s.pend
-    (by rcases h1 with h1 | h1
-        · exact Or.inl h1
-        · exact Or.inr (Or.inr ⟨s.clock, Nat.le_refl _, h1⟩))
-    (by rcases h2 with h2 | h2
-        · exact Or.inl h2
-        · exact Or.inr (Or.inr ⟨s.clock, Nat.le_refl _, h2⟩))
-    h.pendOk
+  exact inv_bumpAtomic h false false (bumpAtomic cfg s.clock s.d false false).1.account
 
 theorem inv_bumpBegin {cfg : Cfg} {s : State} (h : Inv cfg s) : Inv cfg (stepBumpBegin s).1 := by
   unfold stepBumpBegin
   split
   · exact h
-  · exact inv_pend h _ (by simp [PendOk])
+  · exact inv_pend h _ ⟨trivial, fun a ha => (h.attWF a ha).2, h.blkWF⟩
+
+/-- the steps of the in-flight bump keep its clock reading -/
+theorem pendOk_next {cfg : Cfg} {atts : List Att} {blocks : List Nat} {pc pc' : BumpPc}
+    (h : PendOk cfg atts blocks (some pc)) (hc : pc'.c = pc.c) (hok : PcOk cfg pc') :
+    PendOk cfg atts blocks (some pc') := by
+  obtain ⟨_, h2, h3⟩ := h
+  exact ⟨hok, by rw [hc]; exact h2, by rw [hc]; exact h3⟩
 
 theorem inv_bumpRead {cfg : Cfg} {s : State} (h : Inv cfg s) : Inv cfg (stepBumpRead cfg s).1 := by
   unfold stepBumpRead
   split
-  · split
+  · rename_i c hp
+    have hpo := h.pendOk
+    rw [hp] at hpo
+    split
     · rename_i w hw
-      exact inv_pend h _ (by simpa [PendOk] using attDecision_some hw)
-    · exact inv_pend h _ (by simp [PendOk])
-  · split
+      exact inv_pend h _ (pendOk_next hpo rfl (attDecision_some hw))
+    · exact inv_pend h _ (pendOk_next hpo rfl trivial)
+  · rename_i c hp
+    have hpo := h.pendOk
+    rw [hp] at hpo
+    split
     · rename_i w hw
-      exact inv_pend h _ (by simpa [PendOk] using propDecision_some hw)
-    · exact inv_pend h _ (by simp [PendOk])
+      exact inv_pend h _ (pendOk_next hpo rfl (propDecision_some hw))
+    · exact inv_pend h _ trivial
   · exact h
 
-theorem inv_bumpWrite {cfg : Cfg} {s : State} (h : Inv cfg s) (hf : Fresh cfg s .bumpWrite) :
-    Inv cfg (stepBumpWrite s).1 := by
+/-- the bump's writes: the minimal record of ITS clock reading dominates every released signature, because none was
+    released since that reading (no `Fresh` hypothesis needed any more) -/
+theorem inv_bumpWrite {cfg : Cfg} {s : State} (h : Inv cfg s) : Inv cfg (stepBumpWrite s).1 := by
   unfold stepBumpWrite
   split
   · rename_i c w hp
-    have hw : w = minimalAtt (epochOf cfg c) := by have := h.pendOk; simpa [hp, PendOk] using this
-    have hfr : epochOf cfg s.clock ≤ epochOf cfg c := by simpa [Fresh, hp] using hf
-    exact inv_durable h { s.d with att := some w } _ (Or.inr (Or.inr ⟨c, hfr, by simp [hw]⟩)) (Or.inl rfl) (by simp [PendOk])
+    have hpo := h.pendOk
+    rw [hp] at hpo
+    obtain ⟨hw, h2, h3⟩ := hpo
+    have hw' : w = minimalAtt (epochOf cfg c) := hw
+    refine inv_durable h { s.d with att := some w } _ (Or.inr (Or.inr ⟨w, rfl, ?_⟩)) (Or.inl rfl)
+      ⟨trivial, h2, h3⟩
+    intro a ha
+    rw [hw']
+    exact minimalAtt_dom (h.attWF a ha).1 (h2 a ha) (Nat.le_refl _)
   · rename_i c w hp
-    have hw : w = minimalProp c := by have := h.pendOk; simpa [hp, PendOk] using this
-    have hfr : s.clock ≤ c := by simpa [Fresh, hp] using hf
+    have hpo := h.pendOk
+    rw [hp] at hpo
+    obtain ⟨hw, h2, h3⟩ := hpo
+    have hw' : w = minimalProp c := hw
     split
-    · exact inv_pend h _ (by simp [PendOk])
-    · exact inv_durable h { s.d with prop := some w } _ (Or.inl rfl) (Or.inr (Or.inr ⟨c, hfr, by simp [hw]⟩)) (by simp [PendOk])
+    · exact inv_pend h _ trivial
+    · refine inv_durable h { s.d with prop := some w } _ (Or.inl rfl) (Or.inr (Or.inr ⟨w, rfl, ?_⟩)) trivial
+      intro b hb
+      rw [hw']
+      exact minimalProp_dom (h3 b hb) (Nat.le_refl _)
   · exact h
 
 theorem inv_tick {cfg : Cfg} {s : State} (h : Inv cfg s) (dt : Nat) : Inv cfg { s with clock := s.clock + dt } := by
@@ -266,15 +300,17 @@ theorem stepSignAtt_cases (cfg : Cfg) (s : State) (x y : Nat) :
       right
       refine ⟨hs, ht, hatt, hc.1, hc.2, by simp_all, by omega, by omega, rfl⟩
 
-theorem inv_signAtt {cfg : Cfg} {s : State} (h : Inv cfg s) (x y : Nat) (hok : SignedOk cfg s (.signAtt x y)) :
-    Inv cfg (stepSignAtt cfg s x y).1 := by
-  have hok' : (stepSignAtt cfg s x y).2 = .signed → x < y ∧ y ≤ epochOf cfg s.clock := hok
+theorem inv_signAtt {cfg : Cfg} {s : State} (h : Inv cfg s) (hp : s.pend = none) (x y : Nat)
+    (hnew : NewOk cfg s (stepSignAtt cfg s x y).1) : Inv cfg (stepSignAtt cfg s x y).1 := by
   rcases stepSignAtt_cases cfg s x y with ⟨h1, _⟩ | ⟨hs, ht, hatt, hx, hy, _, _, _, heq⟩
   · rw [h1]; exact h
-  · rw [heq] at hok' ⊢
-    have hwf := hok' rfl
+  · rw [heq] at hnew ⊢
+    have hwf : x < y ∧ y ≤ epochOf cfg s.clock := by
+      rcases hnew.1 (x, y) (by simp) with hm | hm
+      · exact h.attWF _ hm
+      · exact hm
     have hd := h.attDom hs ht hatt
-    refine ⟨?_, h.blkWF, ?_, h.blkDom, ?_, h.blkSafe, h.pendOk⟩
+    refine ⟨?_, h.blkWF, ?_, h.blkDom, ?_, h.blkSafe, ?_⟩
     · intro a ha
       simp only [List.mem_cons] at ha
       rcases ha with rfl | ha
@@ -294,6 +330,8 @@ theorem inv_signAtt {cfg : Cfg} {s : State} (h : Inv cfg s) (x y : Nat) (hok : S
       refine ⟨?_, h.attSafe⟩
       intro a ha
       exact not_slashable_of_dom (hd a ha).1 (hd a ha).2 hx hy
+    · show PendOk cfg _ _ s.pend
+      rw [hp]; trivial
 
 /-- the two outcomes of a block sign request -/
 theorem stepSignBlock_cases (cfg : Cfg) (s : State) (slot : Nat) :
@@ -317,21 +355,23 @@ theorem stepSignBlock_cases (cfg : Cfg) (s : State) (slot : Nat) :
       exact ⟨hp, hprop, hc, by simp_all, by omega, rfl⟩
     · left; simp
 
-theorem inv_signBlock {cfg : Cfg} {s : State} (h : Inv cfg s) (slot : Nat) (hok : SignedOk cfg s (.signBlock slot)) :
-    Inv cfg (stepSignBlock cfg s slot).1 := by
-  have hok' : (stepSignBlock cfg s slot).2 = .signed → slot ≤ s.clock := hok
-  rcases stepSignBlock_cases cfg s slot with ⟨h1, _⟩ | ⟨hp, hprop, hc, _, _, heq⟩
+theorem inv_signBlock {cfg : Cfg} {s : State} (h : Inv cfg s) (hp : s.pend = none) (slot : Nat)
+    (hnew : NewOk cfg s (stepSignBlock cfg s slot).1) : Inv cfg (stepSignBlock cfg s slot).1 := by
+  rcases stepSignBlock_cases cfg s slot with ⟨h1, _⟩ | ⟨hp', hprop, hc, _, _, heq⟩
   · rw [h1]; exact h
-  · rw [heq] at hok' ⊢
-    have hwf := hok' rfl
-    have hd := h.blkDom hp hprop
-    refine ⟨h.attWF, ?_, h.attDom, ?_, h.attSafe, ?_, h.pendOk⟩
+  · rw [heq] at hnew ⊢
+    have hwf : slot ≤ s.clock := by
+      rcases hnew.2 slot (by simp) with hm | hm
+      · exact h.blkWF _ hm
+      · exact hm
+    have hd := h.blkDom hp' hprop
+    refine ⟨h.attWF, ?_, h.attDom, ?_, h.attSafe, ?_, ?_⟩
     · intro b hb
       simp only [List.mem_cons] at hb
       rcases hb with rfl | hb
       · exact hwf
       · exact h.blkWF b hb
-    · intro hp' heq' b hb
+    · intro hp'' heq' b hb
       simp only [Option.some.injEq] at heq'
       simp only [List.mem_cons] at hb
       rcases hb with rfl | hb
@@ -342,6 +382,8 @@ theorem inv_signBlock {cfg : Cfg} {s : State} (h : Inv cfg s) (slot : Nat) (hok 
       intro b hb
       have := hd b hb
       omega
+    · show PendOk cfg _ _ s.pend
+      rw [hp]; trivial
 
 theorem stepSignAttFault_state (cfg : Cfg) (s : State) (x y : Nat) :
     (stepSignAttFault cfg s x y).1 = s ∧ (stepSignAttFault cfg s x y).2 ≠ .signed := by
@@ -371,94 +413,131 @@ theorem stepSignBlockFault_state (cfg : Cfg) (s : State) (slot : Nat) :
       exact ho
   · rw [heq]; simp
 
-theorem inv_step {cfg : Cfg} {s : State} (h : Inv cfg s) (op : Op)
-    (hok : SignedOk cfg s op) (hf : Fresh cfg s op) : Inv cfg (step cfg s op).1 := by
+/-- a lock-taking request executed with the lock available -/
+theorem inv_stepFree {cfg : Cfg} {s : State} (h : Inv cfg s) (hp : s.pend = none) (op : Op)
+    (hnew : NewOk cfg s (stepFree cfg s op).1) : Inv cfg (stepFree cfg s op).1 := by
   cases op with
   | addShare => exact inv_add h _ _
   | addFail n => cases n <;> exact inv_add h _ _
   | removeShare => exact inv_remove h _
   | removeFail n => exact inv_remove h _
   | bump => exact inv_bump h
-  | bumpBegin => exact inv_bumpBegin h
-  | bumpRead => exact inv_bumpRead h
-  | bumpWrite => exact inv_bumpWrite h hf
-  | signAtt x y => exact inv_signAtt h x y hok
-  | signBlock slot => exact inv_signBlock h slot hok
-  | signAttFault x y => simp only [step]; rw [(stepSignAttFault_state cfg s x y).1]; exact h
-  | signBlockFault slot => simp only [step]; rw [(stepSignBlockFault_state cfg s slot).1]; exact h
+  | signAtt x y => exact inv_signAtt h hp x y hnew
+  | signBlock slot => exact inv_signBlock h hp slot hnew
+  | signAttFault x y => simp only [stepFree]; rw [(stepSignAttFault_state cfg s x y).1]; exact h
+  | signBlockFault slot => simp only [stepFree]; rw [(stepSignBlockFault_state cfg s slot).1]; exact h
+  | bumpBegin => exact h
+  | bumpRead => exact h
+  | bumpWrite => exact h
+  | tick dt => exact h
+  | restart => exact h
+  | resume => exact h
+
+/-- the waiting request runs once the lock is free -/
+theorem inv_drain {cfg : Cfg} {s : State} (h : Inv cfg s) (hp : s.pend = none)
+    (hnew : NewOk cfg s (drain cfg s)) : Inv cfg (drain cfg s) := by
+  unfold drain at hnew ⊢
+  split
+  · exact h
+  · rename_i op hop
+    rw [hop] at hnew
+    have h0 : Inv cfg { s with delayed := none } := inv_of_fields h rfl rfl rfl rfl rfl
+    have h1 := inv_stepFree (s := { s with delayed := none }) h0 hp op hnew
+    exact inv_of_fields h1 rfl rfl rfl rfl rfl
+
+theorem stepBumpRead_fields (cfg : Cfg) (s : State) :
+    (stepBumpRead cfg s).1.atts = s.atts ∧ (stepBumpRead cfg s).1.blocks = s.blocks ∧
+    (stepBumpRead cfg s).1.clock = s.clock := by
+  unfold stepBumpRead
+  repeat' split
+  all_goals exact ⟨rfl, rfl, rfl⟩
+
+theorem stepBumpWrite_fields (s : State) :
+    (stepBumpWrite s).1.atts = s.atts ∧ (stepBumpWrite s).1.blocks = s.blocks ∧
+    (stepBumpWrite s).1.clock = s.clock := by
+  unfold stepBumpWrite
+  repeat' split
+  all_goals exact ⟨rfl, rfl, rfl⟩
+
+theorem newOk_of_fields {cfg : Cfg} {s r s' : State} (h : NewOk cfg s s') (ha : r.atts = s.atts)
+    (hb : r.blocks = s.blocks) (hc : r.clock = s.clock) : NewOk cfg r s' := by
+  unfold NewOk at h ⊢
+  rw [ha, hb, hc]; exact h
+
+theorem inv_finishBump {cfg : Cfg} {s : State} {r : State × Out} (hr : Inv cfg r.1)
+    (hf : r.1.atts = s.atts ∧ r.1.blocks = s.blocks ∧ r.1.clock = s.clock)
+    (hnew : NewOk cfg s (finishBump cfg r).1) : Inv cfg (finishBump cfg r).1 := by
+  unfold finishBump at hnew ⊢
+  split
+  · rename_i hn
+    have hp : r.1.pend = none := by simpa using hn
+    rw [if_pos hn] at hnew
+    exact inv_drain hr hp (newOk_of_fields hnew hf.1 hf.2.1 hf.2.2)
+  · exact hr
+
+theorem inv_blockOrRun {cfg : Cfg} {s : State} (h : Inv cfg s) (op : Op)
+    (hnew : NewOk cfg s (blockOrRun cfg s op).1) : Inv cfg (blockOrRun cfg s op).1 := by
+  unfold blockOrRun at hnew ⊢
+  split
+  · split
+    · exact h
+    · exact inv_of_fields h rfl rfl rfl rfl rfl
+  · rename_i hn
+    have hp : s.pend = none := by
+      cases hs : s.pend with
+      | none => rfl
+      | some _ => simp [hs] at hn
+    rw [if_neg hn] at hnew
+    exact inv_stepFree h hp op hnew
+
+theorem inv_step {cfg : Cfg} {s : State} (h : Inv cfg s) (op : Op)
+    (hok : SignedOk cfg s op) : Inv cfg (step cfg s op).1 := by
+  unfold SignedOk at hok
+  cases op with
   | tick dt => exact inv_tick h dt
-  | restart => exact inv_pend h none (by simp [PendOk])
+  | restart =>
+    simp only [step] at hok ⊢
+    exact inv_drain (s := { s with pend := none }) (inv_pend h none trivial) rfl hok
+  | resume =>
+    simp only [step]
+    split
+    · exact inv_of_fields h rfl rfl rfl rfl rfl
+    · exact h
+  | bumpBegin => exact inv_bumpBegin h
+  | bumpRead =>
+    simp only [step] at hok ⊢
+    exact inv_finishBump (inv_bumpRead h) (stepBumpRead_fields cfg s) hok
+  | bumpWrite =>
+    simp only [step] at hok ⊢
+    exact inv_finishBump (inv_bumpWrite h) (stepBumpWrite_fields s) hok
+  | addShare => exact inv_blockOrRun h _ hok
+  | addFail n => exact inv_blockOrRun h _ hok
+  | removeShare => exact inv_blockOrRun h _ hok
+  | removeFail n => exact inv_blockOrRun h _ hok
+  | bump => exact inv_blockOrRun h _ hok
+  | signAtt x y => exact inv_blockOrRun h _ hok
+  | signBlock slot => exact inv_blockOrRun h _ hok
+  | signAttFault x y => exact inv_blockOrRun h _ hok
+  | signBlockFault slot => exact inv_blockOrRun h _ hok
 
 theorem inv_run {cfg : Cfg} (ops : List Op) : ∀ {s : State}, Inv cfg s →
-    Along cfg (SignedOk cfg) s ops → Along cfg (Fresh cfg) s ops → Inv cfg (run cfg s ops) := by
+    Along cfg (SignedOk cfg) s ops → Inv cfg (run cfg s ops) := by
   induction ops with
-  | nil => intro s h _ _; exact h
+  | nil => intro s h _; exact h
   | cons op ops ih =>
-    intro s h hok hf
-    exact ih (inv_step h op hok.1 hf.1) hok.2 hf.2
-
-/-! ### histories without split bumps never have a bump in flight, so `Fresh` is vacuous for them -/
-
-theorem pend_none_step {cfg : Cfg} {s : State} (hp : s.pend = none) (op : Op) (ha : Op.atomic op = true) :
-    (step cfg s op).1.pend = none := by
-  cases op with
-  | addShare =>
-    simp only [step, stepAdd]
-    repeat' split
-    all_goals exact hp
-  | addFail n =>
-    cases n <;>
-    · simp only [step, stepAdd]
-      repeat' split
-      all_goals exact hp
-  | removeShare =>
-    simp only [step, stepRemove]
-    repeat' split
-    all_goals exact hp
-  | removeFail n =>
-    simp only [step, stepRemove]
-    repeat' split
-    all_goals exact hp
-  | bump => exact hp
-  | bumpBegin => simp [Op.atomic] at ha
-  | bumpRead => simp [Op.atomic] at ha
-  | bumpWrite => simp [Op.atomic] at ha
-  | signAtt x y =>
-    rcases stepSignAtt_cases cfg s x y with ⟨h1, _⟩ | ⟨_, _, _, _, _, _, _, _, heq⟩
-    · simp only [step]; rw [h1]; exact hp
-    · simp only [step]; rw [heq]; exact hp
-  | signBlock slot =>
-    rcases stepSignBlock_cases cfg s slot with ⟨h1, _⟩ | ⟨_, _, _, _, _, heq⟩
-    · simp only [step]; rw [h1]; exact hp
-    · simp only [step]; rw [heq]; exact hp
-  | signAttFault x y => simp only [step]; rw [(stepSignAttFault_state cfg s x y).1]; exact hp
-  | signBlockFault slot => simp only [step]; rw [(stepSignBlockFault_state cfg s slot).1]; exact hp
-  | tick dt => exact hp
-  | restart => rfl
-
-theorem fresh_of_atomic {cfg : Cfg} (ops : List Op) : ∀ {s : State}, s.pend = none →
-    (∀ op ∈ ops, Op.atomic op = true) → Along cfg (Fresh cfg) s ops := by
-  induction ops with
-  | nil => intro s _ _; trivial
-  | cons op ops ih =>
-    intro s hp ha
-    refine ⟨?_, ih (pend_none_step hp op (ha op (by simp))) (fun o ho => ha o (by simp [ho]))⟩
-    unfold Fresh
-    rw [hp]
-    split <;> simp_all
+    intro s h hok
+    exact ih (inv_step h op hok.1) hok.2
 
 /-- a regenerated literal/operator list without its string literals (error texts may be reworded freely) -/
 def opsOnly (l : List String) : List String := l.filter fun s => s.front != '"'
 
-/-! ### decidability of the per-step guards (used by the concrete witnesses and non-vacuity examples) -/
+/-! ### decidability of the per-step guard (used by the concrete witnesses and non-vacuity examples) -/
+
+instance (cfg : Cfg) (s s' : State) : Decidable (NewOk cfg s s') := by
+  unfold NewOk; infer_instance
 
 instance (cfg : Cfg) (s : State) (op : Op) : Decidable (SignedOk cfg s op) := by
-  unfold SignedOk
-  cases op <;> dsimp only <;> infer_instance
-
-instance (cfg : Cfg) (s : State) (op : Op) : Decidable (Fresh cfg s op) := by
-  unfold Fresh
-  split <;> infer_instance
+  unfold SignedOk; infer_instance
 
 def decAlong (cfg : Cfg) (P : State → Op → Prop) [∀ s op, Decidable (P s op)] :
     ∀ (s : State) (ops : List Op), Decidable (Along cfg P s ops)
